@@ -216,7 +216,7 @@ def _reader_key_orders(ctx, world, ev, cm, cname, G):
     ref = None
     n = 0
     fs = cm.cls.lookup("from_serialized")
-    fsite = (fs[2].mod.path, fs[1].lineno, "from_serialized") if fs and fs[0] == "func" and hasattr(fs[2], "mod") and hasattr(fs[2].mod, "path") else None
+    fsite = (getattr(fs[2].mod, "relpath", fs[2].mod.path), fs[1].lineno, "from_serialized") if fs and fs[0] == "func" and hasattr(fs[2], "mod") and hasattr(fs[2].mod, "path") else None
     for order in _orders(keys, ctx.tier):
         D = DictV([(k, vals[k]) for k in order])
         blob = mk_app(".encode", (mk_app("json.dumps", (D,)), Const("ascii")))
